@@ -290,6 +290,34 @@ class Ctx:
     def violation(self, sig, what, case=None, obs=None):
         self.violations.append(dict(sig=sig, what=what, case=case, obs=obs))
 
+    def apalache_inductive(self, module, *, cinit, ind_init="IndInit", inv="IndInv", init="Init", timeout_s=600, name=None):
+        """Unbounded safety of a small typed module with Apalache: Init => Inv (length 0) and Inv /\\ Next => Inv' (length 1).
+        A counterexample is a model-level failure (inconclusive, like a failed R1); a tool problem is recorded and skipped."""
+        import subprocess, tempfile, shutil, os, time
+        d = tempfile.mkdtemp(prefix="apalache-", dir=self.scratch)
+        shutil.copy(os.path.join(SPEC, module + ".tla"), d)
+        res = {}
+        for label, i, ln in (("base", init, 0), ("step", ind_init, 1)):
+            t0 = time.time()
+            try:
+                p = subprocess.run(["apalache-mc", "check", f"--cinit={cinit}", f"--init={i}", f"--inv={inv}", f"--length={ln}", module + ".tla"],
+                                   cwd=d, stdout=subprocess.PIPE, stderr=subprocess.STDOUT, text=True, timeout=timeout_s)
+                out = p.stdout
+            except (subprocess.TimeoutExpired, FileNotFoundError) as e:
+                res[label] = f"not run: {type(e).__name__}"
+                continue
+            if "EXITCODE: OK" in out and "The outcome is: NoError" in out:
+                res[label] = f"NoError ({time.time() - t0:.0f} s)"
+            elif "The outcome is: Error" in out:
+                shutil.rmtree(d, ignore_errors=True)
+                raise Inconclusive(f"Apalache {name or module}: {inv} is not inductive ({label} case)\n{out[-800:]}")
+            else:
+                res[label] = "tool error: " + out.strip().splitlines()[-1][:200] if out.strip() else "tool error"
+        shutil.rmtree(d, ignore_errors=True)
+        self.log("R1", (name or module) + " (apalache)", res)
+        self.extra.setdefault("apalache_inductive", {})[name or module] = res
+        return res
+
     def growth(self, fn, *args):
         """Run a phase that goes beyond the property's own replay (attached models). If it cannot reach a conclusion while the
         property's replay has already produced violations on real-code behaviour, those stand: the phase's failure is recorded,
